@@ -132,6 +132,12 @@ class Text:
         return 'Text(%s)' % self.render()
 
 
+class _Goto(Exception):
+    def __init__(self, label):
+        Exception.__init__(self, label)
+        self.label = label
+
+
 class _Break(Exception):
     pass
 
@@ -386,6 +392,8 @@ class Interp:
             ret = None
         except _Return as r:
             ret = r.v
+        except _Goto:
+            raise PEError('goto to a label that is not a direct child of an enclosing block in %s' % fdecl.get('name'))
         finally:
             self.depth -= 1
             self.cur_tu, self.frame = saved_tu, saved_frame
@@ -692,8 +700,22 @@ class Interp:
         if k is None:
             return
         if k == 'CompoundStmt':
-            for c in node.get('inner', []):
-                self.exec_stmt(c)
+            inner = node.get('inner', [])
+            i, jumps = 0, 0
+            while i < len(inner):
+                try:
+                    self.exec_stmt(inner[i])
+                except _Goto as g:
+                    # a label that is a direct child of this block (the cleanup-label idiom); otherwise an enclosing block has it
+                    tgt = [j for j, c in enumerate(inner) if c.get('kind') == 'LabelStmt' and c.get('declId') == g.label]
+                    if not tgt:
+                        raise
+                    jumps += 1
+                    if jumps > self.max_loop:
+                        raise PEError('goto loop not closed at %s' % astdb.loc_str(node))
+                    i = tgt[0]
+                    continue
+                i += 1
             return
         if k == 'DeclStmt':
             for d in node.get('inner', []):
@@ -796,7 +818,9 @@ class Interp:
             self.exec_stmt(node['inner'][-1])
             return
         if k == 'GotoStmt':
-            raise PEError('goto unsupported at %s' % astdb.loc_str(node))
+            if not node.get('targetLabelDeclId'):
+                raise PEError('goto with unknown target at %s' % astdb.loc_str(node))
+            raise _Goto(node['targetLabelDeclId'])
         # expression statement
         self.eval(node)
 
@@ -946,6 +970,8 @@ class Interp:
             return SIZEOF[qt]
         if qt.endswith('*') or re.search(r'\*\s*(const|volatile|restrict)(\s+(const|volatile|restrict))*$', qt):
             return 8
+        if re.search(r'\(\s*\*\s*(const\s*)?\)\s*\(', qt) and _array_len(qt) is None:
+            return 8        # pointer to function
         n = _array_len(qt)
         if n is not None:
             e = self.sizeof(_array_elem(qt))
@@ -1376,8 +1402,15 @@ def format_printf(fmt, args):
                 m_ = _re.fullmatch(r'%([-0 +#]*)(\d*)(?:hh|h|ll|l|q|j|z|t)?([duixXo])', spec)
                 if m_:
                     fl, wd, cv = m_.groups()
-                    if cv in 'uxXo' and v < 0:
-                        v = v & 0xffffffff if 'll' not in spec and 'l' not in spec else v & 0xffffffffffffffff
+                    wide = any(m__ in spec for m__ in ('l', 'q', 'j', 'z', 't'))
+                    if cv in 'uxXo':
+                        # the argument is fetched as unsigned int unless a length modifier says otherwise (LP64)
+                        v = v & (0xffffffffffffffff if wide else 0xffffffff)
+                    else:
+                        bits_ = 64 if wide else 32
+                        v &= (1 << bits_) - 1
+                        if v >> (bits_ - 1):
+                            v -= 1 << bits_
                     buf += ('%' + fl + wd + ('d' if cv in 'dui' else cv)) % v
                 else:
                     if buf:
